@@ -48,6 +48,11 @@ def directed(mc):
         h("dbg", "elem", alloc, 0, 7, "fill 0 0 0 3 2 5", "rec 0 1 1 0 2")
         h("dbg", "elem", alloc, 0, 9, "fill 0 0 0 3 2 5", "recf 0 2 2 4 0", "destroy 0")
         h("dbg", "elem", alloc, 0, 0, "dims 0 0 0 3 2 7", "dims 1 0 0 4 4 1", "massign 0 1", "massign 1 0")
+        # swap: equal instances exchange everything; unequal instances: propagate_on_container_swap exchanges the allocators too, otherwise the
+        # contract (BOOST_ASSERT(_alloc == img._alloc)) is violated by the caller and diagnosed in this debug build
+        h("dbg", "rgb8", alloc, 0, 0, "dims 0 1 0 3 2 1", "dims 1 1 4 4 4 2", "swap 0 1", "destroy 0", "rec 1 5 5 0 1")
+        h("dbg", "rgb8", alloc, 0, 0, "dims 0 1 0 3 2 1", "dims 1 2 4 4 4 2", "swap 0 1", "destroy 0", "destroy 1")
+        h("dbg", "elem", alloc, 0, 0, "dims 0 2 0 3 2 1", "dflt 1 1 8", "swap 1 0", "write 1 0 0 3", "destroy 1")
         # reuse decision exactly at the boundary (same byte size, other shape), shrinking, growing, re-aligning
         for org in ORGS:
             v = 1
@@ -109,7 +114,9 @@ def gen_history(r, mc, thorough):
         elif k < 55: ops.append("assign %d %d" % (s, r.choice(same)))
         elif k < 58 and other: ops.append("cassign %d %d" % (s, r.choice(other)))
         elif k < 72: ops.append("massign %d %d" % (s, r.choice(same)))
-        elif k < 76 and (alloc in POCS or alloc == "se" or policy < 7): ops.append("swap %d %d" % (s, r.choice(same)))
+        # user level swap of unequal non-propagating instances is a contract violation (BOOST_ASSERT in swap): generated in debug builds only,
+        # where it is an expected `assert:` observation that ends the history
+        elif k < 76 and (alloc in POCS or alloc == "se" or policy < 7 or mode == "dbg"): ops.append("swap %d %d" % (s, r.choice(same)))
         elif k < 90: ops.append("write %d %d %d %d" % (s, r.below(8), r.below(8), v()))
         else: ops.append("destroy %d" % s); del occ[s]
     return "h %s %s %s 0 0 %s | %s" % (mode, org, alloc, mc, " | ".join(ops))
@@ -148,7 +155,8 @@ ASSUME = [
     "allocators obey the allocator contract (allocate returns fresh storage; deallocate with the pointer, size and an equal allocator releases it); "
     "std::uninitialized_fill / uninitialized_copy roll back as the standard says (modelled, not verified)",
     "sizes do not overflow std::size_t (stated as explicit hypotheses in the theorems about the generated size formulas)",
-    "user level swap() between images whose allocators are unequal and do not propagate on swap is outside the contract (as for standard containers) and is not generated",
+    "user level swap() between images whose allocators are unequal and do not propagate on swap is outside the contract (BOOST_ASSERT in image::swap, as for standard containers): "
+    "generated in assert-enabled builds only, where the assertion is the expected observation; not generated in NDEBUG builds",
     "faults: one injected failure per history (the k-th allocation or the k-th element construction); assignment of elements does not throw",
 ]
 
